@@ -361,7 +361,8 @@ class Disk:
                     f[key] = seen + 1
                     if seen != f["nth"]:
                         continue
-            f["_used"] = True
+            if not f.get("repeat"):
+                f["_used"] = True
             return f
         return None
 
